@@ -254,7 +254,7 @@ CTypes == <<<<>>, MT_manifest, MT_index, MT_json>>
 \* cl: Content-Length; -2 stands for "the length of the body"
 D0 == [kind |-> "Ping", m |-> "GET", ans |-> "ok", rng |-> 1, size |-> 3, cr |-> 1, cl |-> -2, bi |-> 1, ct |-> 1,
        werr |-> "ok", cerr |-> "ok", merr |-> "ok", il |-> 1, iterr |-> "ok", nv |-> 1, lastv |-> FALSE, oi |-> 1,
-       ref |-> "tag", sid |-> 1, wsize |-> 5, defect |-> "none", rf |-> 0, rcerr |-> "ok", es |-> 1, est |-> 418]
+       ref |-> "tag", sid |-> 1, wsize |-> 5, defect |-> "none", rf |-> 0, rcerr |-> "ok", es |-> 1, est |-> 418, rngx |-> <<>>]
 K(kind, m) == [D0 EXCEPT !.kind = kind, !.m = m]
 ChunkCases(kind, m) ==
      {[K(kind, m) EXCEPT !.ans = a, !.cr = r, !.cl = c, !.bi = b] : a \in AnsFew, r \in 1..Len(CRanges), c \in {-1, 0, 1, 3}, b \in {1, 5, 6}}
@@ -286,6 +286,13 @@ ShapeCases ==
   \cup {[K("TagsList", "GET") EXCEPT !.iterr = a, !.es = e, !.est = t] : a \in ShapeAns, e \in 2..5, t \in {403, 404, 418}}
   \cup {[K("CompleteUpload", "PUT") EXCEPT !.merr = a, !.bi = 5, !.es = e, !.est = t] : a \in ShapeAns, e \in 2..5, t \in {403, 404, 418}}
   \cup {[K("UploadChunk", "PATCH") EXCEPT !.werr = a, !.bi = 5, !.es = e, !.est = t] : a \in ShapeAns, e \in 2..5, t \in {403, 404, 418}}
+\* ranges at the edges of the blob: for each size, first-byte-pos 0, 1, size-1, size and last-byte-pos size-2 .. size+1
+\* (rngx = <<first, last>>); the scripted range reader serves exactly the clamped slice.  Always exported.
+EdgeRanges == {[K("BlobGet", "GET") EXCEPT !.size = z, !.rngx = <<x, y>>] :
+                 z \in {0, 3, 11}, x \in {0, 1, 2, 3, 10, 11}, y \in {0, 1, 2, 3, 4, 9, 10, 11, 12}} \ {c \in
+              {[K("BlobGet", "GET") EXCEPT !.size = z, !.rngx = <<x, y>>] :
+                 z \in {0, 3, 11}, x \in {0, 1, 2, 3, 10, 11}, y \in {0, 1, 2, 3, 4, 9, 10, 11, 12}} :
+              ~(/\ c.rngx[1] \in {0, 1, c.size - 1, c.size} /\ c.rngx[2] \in (c.size - 2)..(c.size + 1) /\ c.rngx[1] <= c.rngx[2])}
 HandleCases ==
   {K("Ping", m) : m \in {"GET", "HEAD"}}
   \cup {[K("BlobHead", "HEAD") EXCEPT !.ans = a, !.size = z] : a \in Answers, z \in {0, 3}}
@@ -321,7 +328,7 @@ HandleCases ==
   \cup {[K("ManifestDelete", "DELETE") EXCEPT !.ans = a, !.ref = f] : a \in Answers, f \in {"tag", "dmatch"}}
   \cup ListCases("TagsList") \cup ListCases("Catalog")
   \cup {[K("Referrers", "GET") EXCEPT !.iterr = a, !.il = i, !.oi = o] : a \in Answers, i \in 1..Len(DigestLists), o \in 1..2}
-  \cup OneDefect \cup ShapeCases
+  \cup OneDefect \cup ShapeCases \cup EdgeRanges
 
 
 Repo2 == <<T_foo, T_bar>>
@@ -356,7 +363,7 @@ HcQuery(c) ==
     [] c.kind = "CompleteUpload" -> [Q0 EXCEPT !.digest = Val(qd)]
     [] c.kind \in {"TagsList", "Catalog"} -> [Q0 EXCEPT !.n = NVs[c.nv], !.last = IF c.lastv THEN Val(T_foo) ELSE Absent]
     [] OTHER -> Q0
-HcHeaders(c) == [range |-> Ranges[c.rng], crange |-> CRanges[c.cr], ctype |-> CTypes[c.ct],
+HcHeaders(c) == [range |-> IF c.rngx # <<>> THEN S_byteseq \o Dec(c.rngx[1]) \o <<ChDashC>> \o Dec(c.rngx[2]) ELSE Ranges[c.rng], crange |-> CRanges[c.cr], ctype |-> CTypes[c.ct],
                  cl |-> IF c.cl = -2 THEN HcBody(c).n ELSE c.cl]
 HcSc(c) == [ans |-> c.ans, size |-> c.size, mt |-> MT_test, rdig |-> D2, id |-> Ids[c.sid], chunk |-> 7, wsize |-> c.wsize,
             werr |-> c.werr, cerr |-> c.cerr, merr |-> c.merr,
@@ -365,7 +372,7 @@ HcHash(c) == c.rng * 7 + c.size * 3 + c.cr * 11 + (c.cl + 2) * 13 + c.bi * 17 + 
              + c.wsize * 37 + AnsIdx(c.ans) * 41 + AnsIdx(c.werr) * 43 + AnsIdx(c.cerr) * 47 + AnsIdx(c.merr) * 53
              + AnsIdx(c.iterr) * 59 + c.ct * 61 + c.es * 83 + Len(c.ref) * 67 + Len(c.kind) * 71 + (IF c.lastv THEN 73 ELSE 0)
 HcExported(c) == \/ c.defect # "none"
-                 \/ c.rf > 0 \/ c.rcerr # "ok" \/ c.oi > 2 \/ c.es > 1
+                 \/ c.rf > 0 \/ c.rcerr # "ok" \/ c.oi > 2 \/ c.es > 1 \/ c.rngx # <<>>
                  \/ c.kind = "ManifestPut" /\ c.ans = "ok" /\ c.ref \in {"true512", "true384", "d384", "d512"}
                  \/ c.kind = "BlobGet" /\ c.ans = "ok" /\ c.rng > Len(BasicRanges)
                  \/ (HcHash(c) + Seed) % HandleK = 0
